@@ -63,6 +63,24 @@ pub const RULES: &[(&str, &[&str])] = &[
     ("generic.oneshot_fired_unarmed", &["C02", "C01"]),
     ("generic.ghost_event", &["C16", "C01"]),
     ("must.not_dispatched", &["C02"]),
+    ("exec.schedule_after_destroy", &["C10"]),
+    ("exec.schedule_failed", &["C10", "C08"]),
+    ("exec.poll_after_complete", &["C10"]),
+    ("exec.poll_outside_dispatch", &["C10"]),
+    ("exec.result_wrong", &["C10", "C01"]),
+    ("exec.lost_wake", &["C10", "C02"]),
+    ("exec.result_not_delivered", &["C10"]),
+    ("exec.future_dropped_twice", &["C10", "C06"]),
+    ("exec.future_leaked", &["C10", "C06"]),
+    ("io.not_nonblocking", &["C17"]),
+    ("io.flags_not_restored", &["C17", "C15"]),
+    ("io.bytes_corrupted", &["C17"]),
+    ("io.task_not_woken", &["C17", "C02"]),
+    ("stream.after_end", &["C10"]),
+    ("stream.items_left", &["C10", "C02"]),
+    ("stream.wrong_item", &["C10", "C01"]),
+    ("stream.none_early", &["C10"]),
+    ("stream.not_removed_after_end", &["C10", "C06"]),
     ("dispatch.unexpected_error", &["C01", "C02", "C15"]),
     ("dispatch.panic", &["C08", "C15"]),
     ("op.panic", &["C08", "C15"]),
